@@ -169,3 +169,62 @@ def memo_obligation(ix, R, oid, relpaths, what, skip=('__init__', 'init')):
             not bad, key='; '.join('%s %s' % (f.qualname, a) for f, a, c in bad),
             detail='; '.join('%s tests `%s` and assigns %s' % (f.qualname, c, a) for f, a, c in bad),
             loc=bad[0][0].loc() if bad else None)
+
+
+def cache_state_cleared(ix, R, oid, sites=('taurex/cache/opacitycache.py::OpacityCache',
+                                           'taurex/cache/ktablecache.py::KTableCache')):
+    """Everything a cache keeps that was derived from a loader's discover() (whose results carry the
+    interpolation / memory mode read from GlobalCache at scan time) is dropped by clear_cache(): the
+    setters of those modes rely on clear_cache() to forget every object and listing built under the old mode."""
+    import ast as _ast
+    from sa.effects import attr_writes
+    for site in sites:
+        c = ix.cls(site)
+        meths = {}
+        for name, lst in c.methods.items():
+            for g in lst:
+                meths[name] = g
+
+        def self_calls(g):
+            out = set()
+            for n in _ast.walk(g.node):
+                if isinstance(n, _ast.Call) and isinstance(n.func, _ast.Attribute) and \
+                        isinstance(n.func.value, _ast.Name) and n.func.value.id == 'self' and n.func.attr in meths:
+                    out.add(n.func.attr)
+            return out
+
+        def closure(start):
+            seen = set()
+            todo = list(start)
+            while todo:
+                m = todo.pop()
+                if m in seen:
+                    continue
+                seen.add(m)
+                todo.extend(self_calls(meths[m]))
+            return seen
+        disc = [m for m, g in meths.items() if any(
+            isinstance(n, _ast.Call) and isinstance(n.func, _ast.Attribute) and n.func.attr == 'discover'
+            for n in _ast.walk(g.node))]
+        derived = {}
+        for m in closure(disc):
+            if m in ('init', '__init__'):
+                continue
+            for a in attr_writes(meths[m]):
+                derived.setdefault(a, set()).add(m)
+        if 'clear_cache' not in meths:
+            R.fail(oid, 'EFF', site, 'the cache has a clear_cache()', 'no clear_cache', 'no clear_cache method', c.loc()
+                   if hasattr(c, 'loc') else None)
+            continue
+        cleared = set()
+        for m in closure(['clear_cache']):
+            cleared |= attr_writes(meths[m])
+        missing = sorted(set(derived) - cleared)
+        R.check(oid, 'EFF', site,
+                'clear_cache() resets every attribute that methods on the discover() path fill (%s): nothing built '
+                'under an earlier interpolation / memory mode survives a mode change' % ', '.join(sorted(derived)),
+                bool(disc) and not missing,
+                key='not cleared: %s' % missing if disc else 'no discover() caller found',
+                detail='; '.join('%s is written by %s (which run or follow discover()) and not reset by clear_cache()'
+                                 % (a, sorted(derived[a])) for a in missing) or 'no method calls discover()',
+                loc=meths['clear_cache'].loc())
